@@ -102,7 +102,7 @@ func c12Opts() lab.GenOpts {
 	return lab.GenOpts{
 		Engines: []string{"v1", "v2"}, MaxSources: 2, MaxDests: 3, MaxRecords: 12, MaxProcs: 2,
 		ProcErrors: true, Filters: true, Conditions: true, Workers: true,
-		UnlimitedDLQ: true, Holds: true,
+		UnlimitedDLQ: true, Holds: true, GateCalls: 35,
 	}
 }
 
